@@ -399,24 +399,25 @@ def m_class_names(spec, rng):
     return _edit_body(spec, lambda t: _map_tree(t, fn))
 
 
-REJECTED = [  # schema-valid (element, attribute, value) the bound converter refuses (classes KF-C15-3..8)
-    ((L.STYLENS, u'graphic-properties'), (ODF % u'dr3d', u'lighting-mode'), u'standard'),
-    ((L.DRAWNS, u'glue-point'), (L.SVGNS, u'x'), u'50%'),
+REJECTED = [  # schema-valid (element, attribute, value) the bound converter refuses (classes KF-C15-6, KF-C15-7)
+    ((L.DRAWNS, u'polygon'), (L.SVGNS, u'viewBox'), u'+0 0 10 10'),
     ((ODF % u'chart', u'chart'), (ODF % u'chart', u'class'), u'bar'),
 ]
 
 
 def m_converter_rejects(spec, rng):
-    """one schema-valid attribute value that the library's converter refuses, inside an automatic style"""
+    """one schema-valid attribute value that the library's converter refuses: a polygon whose svg:viewBox uses an
+    explicit plus sign (xsd:integer allows it)"""
     (eq, aq, v) = REJECTED[0]
-    def edit(t):
-        au = L.kid(t, L.OFFICENS, 'automatic-styles')
-        st = ('E', L.STYLENS, u'style', [(L.STYLENS, u'name', u'grX'), (L.STYLENS, u'family', u'graphic')],
-              [('E', eq[0], eq[1], [(aq[0], aq[1], v)], [])])
-        if au is None:
-            return t
-        return ('E', t[1], t[2], t[3], [('E', k[1], k[2], k[3], list(k[4]) + [st]) if k is au else k for k in t[4]])
-    return _edit_body(spec, edit)
+    done = {'d': False}
+    def fn(e):
+        if not done['d'] and e[1] == L.TEXTNS and e[2] == 'p':
+            done['d'] = True
+            shape = ('E', eq[0], eq[1], [(aq[0], aq[1], v), (L.DRAWNS, u'points', u'0,0 10,0 5,10'), (L.SVGNS, u'width', u'1cm'),
+                                         (L.SVGNS, u'height', u'1cm'), (L.TEXTNS, u'anchor-type', u'as-char')], [])
+            return ('E', e[1], e[2], e[3], list(e[4]) + [shape])
+        return e
+    return _edit_body(spec, lambda t: _map_tree(t, fn))
 
 
 def m_cdata(spec, rng):
